@@ -8,9 +8,12 @@ lean/QlibcModel/HashArr/Fault.lean), theorems in Props/C15Harr.lean and Props/C1
 
 The oracle is independent of the model: an ideal bounded map with the exact space rule (as in C06),
 a ledger `live = handles + copies handed out and not yet released`, and the rule for injected
-failures: a call in which the armed allocation really happened (k <= attempts reported by the
-allocator wrapper) must report ENOMEM, leave the region byte-identical (`same=1`) and the ledger
-unchanged; a call in which it did not happen must not report ENOMEM."""
+failures: ENOMEM may be reported only by a call inside which the armed allocation can have happened
+(k <= attempts reported by the allocator wrapper — the count is USED for this decision only, it is
+never judged: how many allocations a call makes is the correspondence's business); a call that
+reports ENOMEM must leave the region byte-identical (`same=1`) and the ledger unchanged; a call that
+does not report ENOMEM — whether or not an allocation was failed inside it — is judged as the plain
+operation (result and state exactly those of the un-faulted call, nothing leaked)."""
 import os, re
 import vlib
 from vlib import Stream, hexs
@@ -19,14 +22,6 @@ from checks import harr_common as H
 LINE = re.compile(r"^(.*) \| live=(-?\d+) kept=(\d+) same=([01]) \| h (\S+) (\S+) (\S+) img=(\S+)$")
 ASPECTS = {"C11": ("ledger", "map"), "C12": ("copies", "map"), "C15": ("atomic", "ledger", "map")}
 INT_MAX = 2147483647
-
-
-def vs_rounds(n):
-    """buffers DYNAMIC_VSPRINTF tries for a formatted string of n bytes (1024, 2048, ...)"""
-    r, size = 1, 1024
-    while n >= size:
-        r, size = r + 1, size * 2
-    return r
 
 
 class HarrOracle:
@@ -146,35 +141,30 @@ class HarrOracle:
             if kind == "attach":
                 self.handle = False
             return None
-        if hit:
-            return "the %s allocation of `%s` was failed (attempts=%d) but the call did not report ENOMEM: `%s`" % (
-                armed, kind, attempts, r[:60])
-        # ---- no failure happened: the call must be the plain operation
+        # ---- no failure was reported: whether or not an allocation was failed inside the call (the
+        # property allows a call to complete correctly although an allocation failed), the call is
+        # judged as the plain operation: result and state exactly those of the un-faulted call
         if kind == "new":
             ms = int(w[1])
             cap = (ms - H.HDR) // H.SLOT if ms > H.HDR else 0
             if cap < 1 or ms <= H.HANDLE:
                 self.cap, self.m, self.handle = None, {}, False
-                return None if (r == "null EINVAL" and attempts == 0) else "qhasharr() on %d bytes answered `%s`" % (ms, r)
-            if r != "ok" or attempts != 1:
-                return "qhasharr() on %d bytes answered `%s` with %d allocations" % (ms, r, attempts)
+                return None if r == "null EINVAL" else "qhasharr() on %d bytes answered `%s`" % (ms, r)
+            if r != "ok":
+                return "qhasharr() on %d bytes answered `%s`" % (ms, r)
             self.cap, self.m, self.handle = cap, {}, True
             return None
         if kind == "attach":
-            if r != "ok" or attempts != 1:
-                return "attach answered `%s` with %d allocations" % (r, attempts)
+            if r != "ok":
+                return "attach answered `%s`" % r
             self.handle = True
             return None if same else "attach changed the region"
         m = self.m
         free = self.cap - self.used()
         if kind in ("put", "putstrf"):
             k, v = H.unhex(w[1]), H.unhex(w[2])
-            want_allocs = 0
             if kind == "putstrf":
-                want_allocs = vs_rounds(len(v))
                 k, v = k + b"\0", v + b"\0"
-            if attempts != want_allocs:
-                return "%s made %d allocation attempts, expected %d" % (kind, attempts, want_allocs)
             ck = H.canon(k)
             if len(k) == 0 or len(v) == 0:
                 want = "false EINVAL"
@@ -191,8 +181,6 @@ class HarrOracle:
             else:
                 want = "false ENOBUFS"
             return None if r == want else "%s answered `%s`, the ideal map `%s`" % (kind, r, want)
-        if attempts != {"rm": 0, "rmi": 0, "clear": 0}.get(kind, attempts):
-            return "%s made %d allocation attempts" % (kind, attempts)
         if kind == "rm":
             k = H.unhex(w[1]); ck = H.canon(k)
             want = "false EINVAL" if len(k) == 0 else ("ok" if ck in m else "false ENOENT")
@@ -219,27 +207,31 @@ class HarrOracle:
             if not same:
                 return "get changed the region"
             if len(k) == 0:
-                want, wa = "null EINVAL", 0
+                want = "null EINVAL"
             elif ck in m:
-                want, wa = "data " + hexs(m[ck][1]), 1
+                want = "data " + hexs(m[ck][1])
                 self.kept += 1
             else:
-                want, wa = "null ENOENT", 0
+                want = "null ENOENT"
             if r != want:
                 return "get answered `%s`, the ideal map `%s`" % (r[:80], want[:80])
-            return None if attempts == wa else "get made %d allocation attempts, expected %d" % (attempts, wa)
+            return None
         if kind == "next":
             if not same:
                 return "getnext changed the region"
             f = r.split()
             if f[0] == "obj":
-                if attempts != 2:
-                    return "getnext made %d allocation attempts for a delivered entry" % attempts
                 self.kept += 2
                 ent = (H.unhex(f[2]), H.unhex(f[3]))
                 return None if ent in m.values() else "getnext delivered an entry the ideal map does not hold"
             if f[0] == "end":
-                return None if attempts == 0 else "getnext made allocations at the end of the table"
+                idx = int(w[1])
+                want = "EINVAL" if idx < 0 else "ENOENT"
+                if f[2] != want:
+                    return "getnext(%d) answered false/%s, documented %s" % (idx, f[2], want)
+                if idx < 0 and int(f[1]) != idx:
+                    return "getnext(%d) rejected the index but changed it to %s" % (idx, f[1])
+                return None
             return "getnext answered `%s`" % r[:60]
         return "unknown operation " + kind
 
@@ -379,7 +371,7 @@ def harr_streams(check, prop):
         for cap in (6, 30):
             for pre in prefixes:
                 targets = [H.op_get(keys[0]), H.op_get(b"absent"), getstr(skeys[0]), getstr(skeys[1]), "next 0", "next 2",
-                           "next %d" % cap, put(keys[1], b"n" * 70), H.op_rm(keys[0]), "rmi 0", "rmi %d" % cap, "clear",
+                           "next %d" % cap, "next -1", "next %d" % (-INT_MAX - 1), "next %d" % (cap + 1), "next %d" % INT_MAX, put(keys[1], b"n" * 70), H.op_rm(keys[0]), "rmi 0", "rmi %d" % cap, "clear",
                            putstrf(skeys[1], b"short"), putstrf(skeys[0], b"R" * 40)]
                 if cap == 30:
                     targets += [putstrf(skeys[2], b"w" * 1023), putstrf(skeys[2], b"w" * 1024), putstrf(skeys[0], b"u" * 1100)]
@@ -424,7 +416,7 @@ def harr_streams(check, prop):
                 elif c < 0.7:
                     ops.append(H.op_rm(k))
                 elif c < 0.8:
-                    ops.append("next %d" % rng.randrange(0, cap + 1))
+                    ops.append("next %d" % rng.choice([rng.randrange(0, cap + 1), rng.randrange(0, cap + 1), -1, -INT_MAX - 1, cap + 1, INT_MAX]))
                 elif c < 0.88:
                     ops += ["rmi %d" % rng.choice([rng.randrange(0, cap), cap, cap + 1, INT_MAX, -1]), "walk"]
                 elif c < 0.92:
@@ -452,6 +444,9 @@ def harr_streams(check, prop):
             # indexes outside the table (fix 1eb7244): EINVAL, region untouched, on an exactly sized heap region
             for i in (cap, cap + 1, INT_MAX, -1, -INT_MAX - 1):
                 ops += ["rmi %d" % i, "walk"]
+            # getnext with an index outside the table (fix 5acdcf6: negative -> EINVAL, index untouched)
+            for i in (-1, -INT_MAX - 1, cap, cap + 1, INT_MAX):
+                ops += ["next %d" % i, "check"]
             # replace, remove, remove by index, clear: the copies must not change
             for k in ks[:3]:
                 ops += [put(k, b"REPLACED" * rng.choice([1, 9])), "check"]
@@ -484,7 +479,7 @@ def harr_streams(check, prop):
                 elif c < 0.7:
                     ops.append(H.op_rm(k))
                 elif c < 0.78:
-                    ops.append("next %d" % rng.randrange(0, cap + 1))
+                    ops.append("next %d" % rng.choice([rng.randrange(0, cap + 1), rng.randrange(0, cap + 1), -1, -INT_MAX - 1, cap + 1, INT_MAX]))
                 elif c < 0.88:
                     ops += ["rmi %d" % rng.choice([rng.randrange(0, cap), rng.randrange(0, cap), cap, cap + 1, INT_MAX, -1]), "walk"]
                 elif c < 0.92:
